@@ -111,18 +111,18 @@ class ReduceLROnPlateauConfig:
     patience: int = 10
     factor: float = 0.1
     min_lr: Any = field(
-        default=0.0, validator=lambda instance, attr, value: instance.validate_min_lr()
+        default=0.0, validator=lambda instance, attr, value: instance.validate_min_lr(value)
     )
 
-    def validate_min_lr(self):
+    def validate_min_lr(self, value):
         """min_lr Validation.
 
         Ensures min_lr is a float>=0 or list of floats>=0
         """
-        if isinstance(self.min_lr, float) and self.min_lr >= 0:
+        if isinstance(value, float) and value >= 0:
             return
-        if isinstance(self.min_lr, list) and all(
-            isinstance(x, float) and x >= 0 for x in self.min_lr
+        if isinstance(value, list) and all(
+            isinstance(x, float) and x >= 0 for x in value
         ):
             return
         message = "min_lr must be a float or a list of floats."
